@@ -436,3 +436,396 @@ def c06_main(tier, seed, replay=None):
     viol = c06_spec_to_code(tier, seed, cov)
     viol += c06_code_to_spec(tier, seed, cov)
     return finish("C06", tier, seed, cov, viol, t0, tier)
+
+
+# ====================================================================== C07: committees / proposers / sync committees
+
+KNOWN_DEVIATIONS = {"RunningEpcSyncStale": "shuffle-epc-sync-stale"}   # trace-spec deviation name -> finding id
+
+
+def build_against(repo_dir, cmd_name):
+    """Build harness/cmd/<cmd_name> against another tree (mutants / self-test)."""
+    bdir = lib.scratch("build-" + os.path.basename(repo_dir.rstrip("/")))
+    modfile = os.path.join(bdir, "go.mod")
+    src = open(os.path.join(lib.HARNESS_DIR, "go.mod")).read()
+    src = re.sub(r"replace github.com/protolambda/zrnt => \S+", "replace github.com/protolambda/zrnt => " + repo_dir, src)
+    open(modfile, "w").write(src)
+    sums = open(os.path.join(repo_dir, "go.sum")).read()
+    extra = os.path.join(lib.HARNESS_DIR, "go.sum")
+    if os.path.exists(extra):
+        sums += open(extra).read()
+    open(os.path.join(bdir, "go.sum"), "w").write(sums)
+    out = os.path.join(bdir, cmd_name)
+    p = lib.run(["go", "build", "-modfile=" + modfile, "-tags", "verif", "-o", out, "./cmd/" + cmd_name],
+                cwd=lib.HARNESS_DIR, env=lib.GO_ENV, timeout=1200)
+    if p.returncode != 0:
+        raise lib.InfraError("harness build failed for %s against %s:\n%s" % (cmd_name, repo_dir, (p.stdout + p.stderr)[-4000:]))
+    return out
+
+
+def c07_model_jobs(tier, seed):
+    q = tier == "quick"
+    jobs = [("partition-exhaustive",
+             cfg_text({"MaxV": 5 if q else 6, "GenSeed": 1, "NCases": 0, "Emit": "FALSE"}, "InitA", "NextA", ["InvA"]),
+             6 if q else 12, 2400, False)]
+    ngen = 5 if q else 24
+    for k in range(ngen):
+        jobs.append(("gen-%d" % k,
+                     cfg_text({"MaxV": 10 + 2 * (k % 4) if q else 10 + 3 * (k % 8),
+                               "GenSeed": (seed * 271 + k * 31 + 5) % 30011, "NCases": 2 if q else 3, "Emit": "TRUE"},
+                              "InitB", "NextB", ["InvB"]), 2, 2400, True))
+    return jobs
+
+
+def run_committee_job(job):
+    name, cfg, workers, timeout, emits = job
+    res = tlc_model_run("MC_Committees", cfg, name, workers, timeout)
+    cases = parse_cases(res.out) if emits else []
+    if emits and not cases:
+        raise lib.InfraError("generator %s produced no case" % name)
+    return name, res, cases
+
+
+def replay_committee_cases(cases, name="cases", binary=None):
+    binary = binary or lib.build_harness("committees")
+    d = lib.scratch("replay")
+    cp = os.path.join(d, name + ".ndjson")
+    rp = os.path.join(d, name + ".result.json")
+    lib.write_ndjson(cp, cases)
+    p = lib.run([binary, "replay", cp, rp], timeout=1800)
+    if p.returncode != 0:
+        raise lib.InfraError("committees replay failed: %s" % (p.stdout + p.stderr)[-3000:])
+    return json.load(open(rp))
+
+
+def c07_spec_to_code(tier, seed, cov, binary=None):
+    jobs = c07_model_jobs(tier, seed)
+    t = time.time()
+    results = lib.parallel_map(run_committee_job, jobs, workers=max(2, lib.NCPU // 2))
+    cov["tlc_wall_s"] = round(time.time() - t, 1)
+    allcases = []
+    for name, res, cases in results:
+        cov["states"] += res.distinct
+        cov["transitions"] += res.generated
+        cov["tlc_runs"][name] = {"distinct": res.distinct, "generated": res.generated, "cases": len(cases),
+                                 "wall_s": round(res.wall, 1)}
+        allcases += cases
+    cov["exhaustive"]["partition-exhaustive"] = (
+        "registries of <= %d validators x {active,pending,exited} x presets (2..4 slots, 1..3 max committees, target 1..2), "
+        "1 round, all pivots, all coin tables up to 4 active" % (5 if tier == "quick" else 6))
+    res = replay_committee_cases(allcases, "gen", binary)
+    cov["replayed_cases"] = res["cases"]
+    cov["oracle_misses"] = res["oracle_misses"]
+    cls = cov["replay_classes"]
+    distinct = set()
+    for c in allcases:
+        f = c["focus"]
+        if max(f["propIters"]) >= 2:
+            cls["proposer_first_candidate_rejected"] += 1
+        if max(f["propIters"]) >= 3:
+            cls["proposer_two_rejections"] += 1
+        if f["syncIters"] > c["P"]["SYNC_COMMITTEE_SIZE"]:
+            cls["sync_candidate_rejected"] += 1
+        if len(set(c["sync"])) < len(c["sync"]):
+            cls["sync_duplicate_member"] += 1
+        if any(cnt > 1 for cnt in c["counts"]):
+            cls["several_committees_per_slot"] += 1
+        if len({len(m) for ep in c["comms"] for s in ep for m in s}) > 1:
+            cls["committee_sizes_differ"] += 1
+        effs = {v[2] for v in c["vals"]}
+        if len(effs) > 1:
+            cls["unequal_effective_balances"] += 1
+        # exact boundary  eff * 255 == MAX * byte  for some balance in use and an enumerated byte
+        if any(v[2] * 255 == c["P"]["MAX_EFFECTIVE_BALANCE"] * b for v in c["vals"] for b in (f["b1"], f["b2"])):
+            cls["byte_at_exact_acceptance_boundary"] += 1
+        distinct.add(lib.digest([c["vals"], c["comms"], c["proposers"], c["sync"]]))
+    cov["distinct_behaviours"] += len(distinct)
+    cov["distinct_nontrivial"] += len(distinct)
+    cov["evaluations"] += res["cases"] * 4
+    for k in ("proposer_first_candidate_rejected", "proposer_two_rejections", "sync_candidate_rejected",
+              "several_committees_per_slot", "committee_sizes_differ", "unequal_effective_balances",
+              "byte_at_exact_acceptance_boundary"):
+        if cls[k] == 0:
+            raise lib.InfraError("vacuity guard: no TLC-generated case of class %s" % k)
+    viol = []
+    if res["mismatches"]:
+        bad = sorted({m["line"] for m in res["mismatches"]})
+        m0 = res["mismatches"][0]
+        c0 = allcases[m0["line"] - 1]
+        msg = "%s: %s; got %s want %s; preset %s, epoch %d, registry %s, TLC-chosen sampling bytes %s (%d mismatches in %d cases)" % (
+            m0["what"], m0["detail"], str(m0.get("got"))[:200], str(m0.get("want"))[:200],
+            {k: v for k, v in c0["P"].items() if k in ("SLOTS_PER_EPOCH", "MAX_COMMITTEES_PER_SLOT", "TARGET_COMMITTEE_SIZE", "SHUFFLE_ROUND_COUNT", "MAX_EFFECTIVE_BALANCE")},
+            c0["epoch"], str(c0["vals"])[:200], [c0["focus"]["b1"], c0["focus"]["b2"]],
+            res.get("mismatches_total", len(res["mismatches"])), len(bad))
+        viol.append(("cases", {"kind": "cases", "cases": [allcases[i - 1] for i in bad[:3]]}, msg))
+    else:
+        cov["traces_validated_against_impl"] += res["cases"]
+    cov["samples"] += [{"tag": c["tag"], "vals": c["vals"], "proposers": c["proposers"], "sync": c["sync"], "focus": c["focus"]}
+                       for c in allcases[:2]]
+    return viol
+
+
+def c07_plan(tier, seed):
+    rng = random.Random(seed * 104729 + 7)
+    q = tier == "quick"
+    plan = []
+    chain = [0]
+
+    def preset(big=False):
+        spe = rng.choice([2, 3, 4, 4, 8])
+        scale = rng.choice([(32000, 1000), (32000, 1000), (25500, 100), (64, 2)])
+        return {"SLOTS_PER_EPOCH": spe, "MAX_COMMITTEES_PER_SLOT": rng.choice([1, 2, 2, 4]),
+                "TARGET_COMMITTEE_SIZE": rng.choice([1, 2, 3, 4]), "SHUFFLE_ROUND_COUNT": rng.choice([1, 2, 3, 3, 5, 10]),
+                "MAX_EFFECTIVE_BALANCE": scale[0], "EFFECTIVE_BALANCE_INCREMENT": scale[1],
+                "SYNC_COMMITTEE_SIZE": rng.choice([4, 8, 16]), "EPOCHS_PER_HISTORICAL_VECTOR": rng.choice([8, 8, 16]),
+                "MIN_SEED_LOOKAHEAD": rng.choice([1, 1, 2]), "EPOCHS_PER_SYNC_COMMITTEE_PERIOD": rng.choice([2, 2, 3, 4])}
+
+    def nvals(p, big=False):
+        if big:
+            return rng.choice([257, 300, 520])
+        return rng.randint(p["SLOTS_PER_EPOCH"], rng.choice([8, 16, 32, 64]))
+
+    def nxt():
+        chain[0] += 1
+        return chain[0]
+    nmut = 60 if q else 600
+    for i in range(nmut):
+        p = preset()
+        big = (i % (30 if q else 40) == 7)
+        fork = rng.choice(["phase0", "phase0", "altair", "altair", "bellatrix", "capella", "deneb"])
+        if big:
+            p["SHUFFLE_ROUND_COUNT"] = rng.choice([1, 2, 3])
+        plan.append({"kind": "mutated", "chain": nxt(), "P": p, "nvals": nvals(p, big), "fork": fork,
+                     "epoch": rng.randint(0, 12), "slot_off": rng.randrange(p["SLOTS_PER_EPOCH"]),
+                     "upgrade": fork == "phase0" and rng.random() < 0.6, "seed": rng.randrange(1 << 40)})
+    nchain = 10 if q else 80
+    for i in range(nchain):
+        p = preset()
+        altair = rng.choice([-1, 0, 1, 2, 2, 3, 4])
+        later = -1
+        if altair >= 0 and rng.random() < 0.5:
+            later = altair + rng.randint(0, 3)
+        plan.append({"kind": "chain", "chain": nxt(), "P": p, "nvals": nvals(p), "altair": altair, "later": later,
+                     "epochs": rng.randint(5, 8) if q else rng.randint(6, 14), "seed": rng.randrange(1 << 40)})
+    return plan
+
+
+def record_committees(plan, name="rec", binary=None):
+    binary = binary or lib.build_harness("committees")
+    d = lib.scratch("record")
+    pp = os.path.join(d, name + ".plan.ndjson")
+    ep = os.path.join(d, name + ".events.ndjson")
+    lib.write_ndjson(pp, plan)
+    p = lib.run([binary, "record", pp, ep], timeout=1800)
+    if p.returncode != 0:
+        raise lib.InfraError("committees record failed: %s" % (p.stdout + p.stderr)[-3000:])
+    return [l for l in open(ep).read().splitlines() if l.strip()]
+
+
+def validate_committee_trace(lines, name, deviations, diagnose=False, timeout=2400):
+    """Returns (first_rejected_index or None, TLCResult, deviation_lines, cov_by_line)."""
+    cfg = cfg_text({"TraceFile": '"trace.ndjson"', "Diagnose": "TRUE" if diagnose else "FALSE",
+                    "KnownDeviations": "{" + ", ".join('"%s"' % d for d in sorted(deviations)) + "}"},
+                   "Init", "Next", post="AllAccepted")
+    wd = lib.fresh_spec_copy({name + ".cfg": cfg, "trace.ndjson": "\n".join(lines) + "\n"})
+    res = lib.tlc("CommitteesTrace", cfg=name + ".cfg", workdir=wd, workers=1, timeout=timeout)
+    shutil.rmtree(wd, ignore_errors=True)
+    out = res.out
+    m = re.search(r"The depth of the complete state graph search is (\d+)", out)
+    if m is None:
+        raise lib.InfraError("trace validation CommitteesTrace/%s did not complete:\n%s" % (name, out[-4000:]))
+    depth = int(m.group(1))
+    devs = [(d.group(1), int(d.group(2))) for d in re.finditer(r'<<"DEVIATION", "(\w+)", (\d+)>>', out)]
+    covs = {}
+    for cm in re.finditer(r'^<<"COV", (\d+), (".*")>>$', out, re.M):
+        covs[int(cm.group(1))] = json.loads(json.loads(cm.group(2)))
+    other = [e for e in res.errors if "AllAccepted" not in e and "ostcondition" not in e]
+    if other:
+        raise lib.InfraError("trace validation CommitteesTrace/%s: TLC error (harness oracle table too small or spec bug):\n%s" % (name, out[-5000:]))
+    if depth == len(lines) + 1:
+        return None, res, devs, covs
+    if not 1 <= depth <= len(lines):
+        raise lib.InfraError("trace validation CommitteesTrace/%s: impossible depth %d" % (name, depth))
+    return depth - 1, res, devs, covs
+
+
+def group_by_chain(lines):
+    groups, cur, last = [], [], None
+    for i, l in enumerate(lines):
+        m = re.search(r'"chain":(\d+)', l)
+        ch = int(m.group(1))
+        if ch != last and cur:
+            groups.append(cur)
+            cur = []
+        cur.append(i)
+        last = ch
+    if cur:
+        groups.append(cur)
+    return groups
+
+
+def c07_code_to_spec(tier, seed, cov, binary=None, plan=None):
+    full = plan is None
+    plan = plan or c07_plan(tier, seed)
+    t = time.time()
+    lines = record_committees(plan, "rec", binary)
+    groups = group_by_chain(lines)
+    # balance groups over shards by bytes
+    nsh = min(lib.NCPU, max(1, len(groups)))
+    shards = [[] for _ in range(nsh)]
+    loads = [0] * nsh
+    for g in sorted(groups, key=lambda g: -sum(len(lines[i]) for i in g)):
+        j = loads.index(min(loads))
+        shards[j].append(g)
+        loads[j] += sum(len(lines[i]) for i in g)
+    shards = [sorted(s, key=lambda g: g[0]) for s in shards if s]
+    deviations = {d for d, fid in KNOWN_DEVIATIONS.items()
+                  if any(e.get("id") == fid for e in lib.active_findings("C07"))}
+
+    def work(arg):
+        k, gs = arg
+        idxs = [i for g in gs for i in g]
+        bad, res, devs, covs = validate_committee_trace([lines[i] for i in idxs], "com-%d" % k, deviations)
+        return (None if bad is None else idxs[bad], res, [(d, idxs[ln - 1]) for d, ln in devs],
+                {idxs[ln - 1]: c for ln, c in covs.items()})
+    outs = lib.parallel_map(work, list(enumerate(shards)), workers=len(shards))
+    cov["trace_wall_s"] = round(time.time() - t, 1)
+    rejected = [o[0] for o in outs if o[0] is not None]
+    devs = [d for o in outs for d in o[2]]
+    covs = {}
+    for o in outs:
+        cov["states"] += o[1].distinct
+        cov["transitions"] += o[1].generated
+        covs.update(o[3])
+    events = [json.loads(l) for l in lines]
+    cov["recorded_states"] = len(events)
+    cls = cov["trace_classes"] = cov.get("trace_classes") or {}
+
+    def bump(k, n=1):
+        cls[k] = cls.get(k, 0) + n
+    for i, e in enumerate(events):
+        spe = e["P"]["SLOTS_PER_EPOCH"]
+        cur = e["slot"] // spe
+        vals = e["vals"]
+        act = [v for v in vals if v[0] <= cur < v[1]]
+        nxt = [v for v in vals if v[0] <= cur + 1 < v[1]]
+        bump("fork_" + e["fork"])
+        bump("kind_" + e["kind"])
+        if e["boundary"]:
+            bump("boundary_" + e["boundary"])
+        if any(v[0] > cur for v in vals):
+            bump("has_pending_validator")
+        if any(v[1] <= cur for v in vals):
+            bump("has_exited_validator")
+        if any(v[3] for v in vals):
+            bump("has_slashed_validator")
+        if len({v[2] for v in act}) > 1:
+            bump("unequal_effective_balances_among_active")
+        if any(v[2] == 0 for v in act):
+            bump("active_validator_with_zero_balance")
+        if [v for v in vals if (v[0] <= cur < v[1]) != (v[0] <= cur + 1 < v[1])]:
+            bump("next_epoch_active_set_differs")
+        if len(vals) > 256:
+            bump("registry_over_256")
+        for a in e["epcs"]:
+            bump("epc_" + a["src"])
+            if any(c > 1 for c in a["counts"]):
+                bump("several_committees_per_slot")
+            for epc in a["comms"]:
+                if len({len(m) for s in epc for m in s}) > 1:
+                    bump("committee_sizes_differ_by_one")
+                    break
+        if e["has_sync"] and len(set(e["state_sync_cur"])) < len(e["state_sync_cur"]):
+            bump("sync_committee_with_duplicate_member")
+        c = covs.get(i)
+        if c:
+            if max(c["propIters"]) >= 2:
+                bump("proposer_loop_2_or_more_iterations")
+            if max(c["propIters"]) >= 3:
+                bump("proposer_loop_3_or_more_iterations")
+            if c["syncIters"] > e["P"]["SYNC_COMMITTEE_SIZE"]:
+                bump("sync_loop_rejected_a_candidate")
+    cov["evaluations"] += sum(len(e["epcs"]) * (3 * e["P"]["SLOTS_PER_EPOCH"] * 2 + e["P"]["SLOTS_PER_EPOCH"] + 2) + 1 for e in events)
+    dist = {lib.digest([e["vals"], e["slot"], e["epcs"][0]["comms"], e["epcs"][0]["proposers"]]) for e in events}
+    cov["distinct_behaviours"] += len(dist)
+    cov["distinct_nontrivial"] += len(dist)
+    cov["samples"] += [{"slot": e["slot"], "fork": e["fork"], "vals": e["vals"][:6], "proposers": e["epcs"][0]["proposers"],
+                        "state_sync_next": e["state_sync_next"]} for e in events[:1] + events[-1:]]
+    viol = []
+    if devs:
+        byname = {}
+        for d, idx in devs:
+            byname.setdefault(d, []).append(idx)
+        for d, idxs in byname.items():
+            f = [e for e in lib.active_findings("C07") if e.get("id") == KNOWN_DEVIATIONS[d]][0]
+            e0 = events[idxs[0]]
+            lib.log("known deviation %s observed on %d recorded states (first: chain %d slot %d fork %s)" % (
+                d, len(idxs), e0["chain"], e0["slot"], e0["fork"]))
+            lib.report_known("C07", f["signature"])
+            cov["known_deviation_" + d] = len(idxs)
+    for idx in rejected[:3]:
+        e = events[idx]
+        grp = [g for g in groups if idx in g][0]
+        diag_lines = [lines[i] for i in grp if i <= idx]
+        try:
+            _, dres, _, _ = validate_committee_trace(diag_lines, "diag%d" % idx, deviations, diagnose=True, timeout=900)
+            dd = {}
+            for dm in re.finditer(r'^<<"DIAG", (\d+), (".*")>>$', dres.out, re.M):
+                dd[int(dm.group(1))] = json.loads(json.loads(dm.group(2)))
+            d = dd.get(len(diag_lines), {})
+            failing = ["%s:%s" % (e["epcs"][k]["src"], f) for k, chk in enumerate(d.get("epcs", [])) for f, v in chk.items() if v is False]
+            failing += ["state:" + f for f, v in d.get("state", {}).items() if v is False]
+            x = d.get("expected", {})
+            detail = {"expected_proposers": x.get("proposers"), "got_proposers": [a["proposers"] for a in e["epcs"]],
+                      "expected_counts": x.get("counts"), "got_counts": [a["counts"] for a in e["epcs"]],
+                      "expected_syncNext": x.get("syncNext"), "sync_direct": e["sync_direct"],
+                      "state_sync": [e["state_sync_cur"], e["state_sync_next"]]}
+        except lib.InfraError as ex:
+            failing, detail = ["diagnosis failed: " + str(ex)[-300:]], {}
+        it = [p for p in plan if p["chain"] == e["chain"]]
+        msg = "real state (chain %d, %s, fork %s, slot %d, %d validators) rejected by CommitteesTrace.tla; failing checks: %s; %s" % (
+            e["chain"], e["kind"], e["fork"], e["slot"], len(e["vals"]), failing, json.dumps(detail)[:1500])
+        viol.append(("trace", {"kind": "trace", "plan": it, "failing": failing}, msg))
+    if not rejected:
+        cov["traces_validated_against_impl"] += len(lines)
+        if full:
+            need = ["fork_phase0", "fork_altair", "boundary_upgrade", "boundary_rotate", "has_pending_validator",
+                    "has_exited_validator", "has_slashed_validator", "unequal_effective_balances_among_active",
+                    "next_epoch_active_set_differs", "several_committees_per_slot", "committee_sizes_differ_by_one",
+                    "proposer_loop_2_or_more_iterations", "sync_loop_rejected_a_candidate", "epc_running", "epc_fresh",
+                    "registry_over_256", "kind_chain", "kind_mutated-upgraded"]
+            for k in need:
+                if not cls.get(k):
+                    raise lib.InfraError("vacuity guard: no recorded state of class %s" % k)
+    return viol
+
+
+def c07_replay(path, cov, binary=None):
+    payload = json.load(open(path))
+    viol = []
+    if payload.get("kind") == "cases":
+        res = replay_committee_cases(payload["cases"], "replay", binary)
+        if res["mismatches"]:
+            m0 = res["mismatches"][0]
+            viol.append(("cases", payload, "%s: %s got %s want %s" % (m0["what"], m0["detail"], m0.get("got"), m0.get("want"))))
+        else:
+            cov["traces_validated_against_impl"] += res["cases"]
+    elif payload.get("kind") == "trace":
+        viol += c07_code_to_spec("quick", 0, cov, binary, plan=payload["plan"])
+    else:
+        raise lib.InfraError("unknown replay file kind")
+    return viol
+
+
+def c07_main(tier, seed, replay=None):
+    t0 = time.time()
+    cov = new_cov()
+    cov["rule"] = ("distinct = digest of (registry, slot, committees, proposers[, sync committee]); every recorded state / "
+                   "generated case computes committees, proposers and sync committees, i.e. is non-trivial")
+    lib.build_harness("committees")
+    if replay:
+        viol = c07_replay(replay, cov)
+        return finish("C07", tier, seed, cov, viol, t0, "replayed")
+    viol = c07_spec_to_code(tier, seed, cov)
+    viol += c07_code_to_spec(tier, seed, cov)
+    return finish("C07", tier, seed, cov, viol, t0, tier)
